@@ -31,6 +31,7 @@ def units(tier, seed):
         for part in split_list(dags, 13 if p == 3 else 1):
             out.append({"stage": "law", "p": p, "codes": [c for c, _ in part], "configs": list(CONFIGS), "styles": list(STYLES)})
     out.append({"stage": "degenerate"})
+    out.append({"stage": "magnitude"})
     try:
         from mc.env import tape  # noqa: F401
         for p in (1, 2, 3):
@@ -77,6 +78,29 @@ def check_law(p, code, lab, cfg, assign, style):
     if not Q.close_mat(np.asarray(d.covariance).tolist(), ec):
         out.append(("lganm:covariance-%s" % dt, "%s: covariance %s, exact %s" % (desc, np.asarray(d.covariance).tolist(), Q.fl(ec))))
     return out
+
+
+HUGE_M = [2.0 ** 60, -2.0 ** 55, 2.0 ** 58]
+HUGE_V = [2.0 ** 60, 2.0 ** 57, 2.0 ** 50]
+
+
+def check_magnitude(p, assign, style):
+    """Edgeless model with huge noise parameters: mean = mu', covariance = diag(var') must hold exactly, entry by entry."""
+    W = np.zeros((p, p))
+    means, variances = np.array(HUGE_M[:p]), np.array(HUGE_V[:p])
+    lib, ora = SP.assignment_dicts(p, assign, style)
+    desc = "LGANM(W=0 (%dx%d), means=%s, variances=%s).sample(population=True, do=%s, noise=%s, shift=%s)" % (p, p, means.tolist(), variances.tolist(), lib[0], lib[1], lib[2])
+    try:
+        d = sempler.LGANM(W, means, variances).sample(population=True, do_interventions=dict(lib[0]), noise_interventions=dict(lib[1]), shift_interventions=dict(lib[2]))
+    except Exception as e:
+        return [("lganm:raises-magnitude", "%s raised %r" % (desc, e))]
+    em, ec, *_ = Q.scm_law(W.tolist(), means.tolist(), variances.tolist(), do=ora[0], noise=ora[1], shift=ora[2])
+    out = []
+    for j in range(p):
+        for got, exact, what in ((d.mean[j], em[j], "mean"), (d.covariance[j, j], ec[j][j], "variance")):
+            if abs(float(got) - float(exact)) > 1e-9 * max(abs(float(exact)), 1e-300):
+                out.append(("lganm:magnitude-%s" % what, "%s: %s of variable %d is %r, exact %r (relative error beyond rounding)" % (desc, what, j, float(got), float(exact))))
+    return out[:2]
 
 
 def degenerate_cases():
@@ -190,6 +214,20 @@ def run_unit(unit):
     if st == "ranges":
         run_ranges(unit["p"], acc)
         return acc.out()
+    if st == "magnitude":
+        for p in (1, 2, 3):
+            for style in ("tuple", "float"):
+                for assign in itertools.product(range(8), repeat=p):
+                    f = check_magnitude(p, assign, style)
+                    acc.states += 1
+                    acc.transitions += 1
+                    acc.traces += 1
+                    acc.extra["magnitude_cases"] += 1
+                    if any(assign):
+                        acc.nontrivial += 1
+                    for sig, msg in f:
+                        acc.fail("magnitude", {"p": p, "assign": list(assign), "style": style}, sig, msg)
+        return acc.out()
     p = unit["p"]
     for code in unit["codes"]:
         for lab, cfg in unit["configs"]:
@@ -219,6 +257,8 @@ def run_unit(unit):
 def replay(kind, case):
     if kind == "degenerate":
         return check_degenerate(case)
+    if kind == "magnitude":
+        return check_magnitude(case["p"], tuple(case["assign"]), case["style"])
     if kind == "ranges":
         return check_ranges(case["p"], case["mrange"], case["vrange"], case["answers"], case["seed_arg"])[0]
     return check_law(case["p"], case["code"], case["lab"], case["cfg"], tuple(case["assign"]), case["style"])
@@ -231,7 +271,7 @@ def describe(tier, seed):
         "rule": "every labelled DAG p<=3 (25 at p=3) x {generic float, cancelling weights with a zero variance, int64 W/means/variances, int W only} x "
                 "all 8^p assignments of a subset of {do, noise, shift} per variable x parameter styles {(mean,var) tuple with fractional values, "
                 "float scalar, int scalar, integer tuple, tuple with the dict keys inserted in descending order}; quick adds every 40th 4-node DAG, thorough all 543 4-node DAGs x 4096 assignments for a "
-                "float and an int64 model; None / {} for every keyword combination; LGANM(W,(lo,hi),(lo,hi)) for 5 mean ranges x 3 variance "
+                "float and an int64 model; None / {} for every keyword combination; edgeless models with noise parameters of magnitude 2^50..2^60 under all 8^p assignments (entrywise relative accuracy); LGANM(W,(lo,hi),(lo,hi)) for 5 mean ranges x 3 variance "
                 "ranges with all 3^(2p) answers of the uniform cells, p<=3. non-trivial: some variable carries overlapping interventions",
         "exhaustive": True,
         "bounds": {"p_exhaustive": 4 if tier == "thorough" else 3},
